@@ -30,6 +30,10 @@ type kase struct {
 	Q1      int     `json:"q1,omitempty"` // a second copy in the query (0: none), exact
 	Self    bool    `json:"self,omitempty"`
 	Rev     bool    `json:"rev,omitempty"` // the copy is reverse-complemented
+	// Order: 0 one Align call (the plant's strand) on a fresh aligner; 1 the other strand is searched
+	// first on the same aligner value (forward then complement is what cmd/pals does), and its hits
+	// are held to the soundness oracle as well
+	Order int `json:"order,omitempty"`
 }
 
 // background returns a fixed pseudo-random DNA string determined only by id (a constant).
@@ -91,7 +95,75 @@ func mutate(rep []byte, variant string) ([]byte, int) {
 	panic("variant " + variant)
 }
 
+// core returns the part of a planted repeat that a local alignment under (+1,-3,-3) keeps: an edit
+// close to an end is cheaper to leave out together with the flank beyond it (a substitution with fewer
+// than 5 letters beyond it, an indel of b letters with fewer than 3b+2), so the recoverable repeat starts
+// after / ends before such an edit.  [lo,hi) in the original, [qlo,qhi) in the copy.
+func core(L int, variant string) (lo, hi, qlo, qhi int) {
+	var kind string
+	var a, b int
+	fmt.Sscanf(variant, "%s %d %d", &kind, &a, &b)
+	type edit struct{ pos, tlen, qlen int } // the edit replaces tlen letters of the original by qlen letters
+	var es []edit
+	switch kind {
+	case "sub":
+		es = []edit{{a, 1, 1}}
+	case "sub2":
+		es = []edit{{L / 4, 1, 1}, {L / 2, 1, 1}}
+	case "sub3":
+		es = []edit{{L / 4, 1, 1}, {L / 2, 1, 1}, {3 * L / 4, 1, 1}}
+	case "del":
+		es = []edit{{a, b, 0}}
+	case "ins":
+		es = []edit{{a, 0, b}}
+	}
+	lo, hi = 0, L
+	shiftLo, shiftHi := 0, 0 // copy coordinate minus original coordinate at lo / hi
+	for _, e := range es {
+		shiftHi += e.qlen - e.tlen
+	}
+	need := func(e edit) int {
+		if e.tlen == 1 && e.qlen == 1 {
+			return 5
+		}
+		return 3*(e.tlen+e.qlen) + 2
+	}
+	for _, e := range es {
+		if e.pos-lo < need(e) && e.pos+e.tlen > lo {
+			lo = e.pos + e.tlen
+		}
+	}
+	for i := len(es) - 1; i >= 0; i-- {
+		if e := es[i]; hi-(e.pos+e.tlen) < need(e) && e.pos < hi {
+			hi = e.pos
+		}
+	}
+	for _, e := range es {
+		if e.pos+e.tlen <= lo {
+			shiftLo += e.qlen - e.tlen
+		}
+		if e.pos >= hi {
+			shiftHi -= e.qlen - e.tlen
+		}
+	}
+	if hi < lo {
+		hi = lo
+	}
+	return lo, hi, lo + shiftLo, hi + shiftHi
+}
+
 func build(k kase) (target, query []byte, plantT, plantQ [2]int, edits int) {
+	defer func() {
+		// the intervals the recall oracle works with are those of the core
+		lo, hi, qlo, qhi := core(k.L, k.Variant)
+		n := plantQ[1] - plantQ[0]
+		plantT = [2]int{k.T0 + lo, k.T0 + hi}
+		if k.Rev {
+			plantQ = [2]int{k.Q0 + n - qhi, k.Q0 + n - qlo}
+		} else {
+			plantQ = [2]int{k.Q0 + qlo, k.Q0 + qhi}
+		}
+	}()
 	target = background(k.BgT, k.LenT)
 	rep := append([]byte{}, target[k.T0:k.T0+k.L]...)
 	cp, e := mutate(rep, k.Variant)
@@ -162,7 +234,7 @@ func overlap(a0, a1, b0, b1 int) int {
 
 type runner struct{ m *morass.Morass }
 
-func (r *runner) align(k kase, target, query []byte, comp bool) (dp.Hits, error) {
+func (r *runner) align(k kase, target, query []byte, comp bool) (hits, other dp.Hits, err error) {
 	t := linear.NewSeq("t", alphabet.BytesToLetters(target), alphabet.DNA)
 	q := t
 	if !k.Self {
@@ -171,29 +243,59 @@ func (r *runner) align(k kase, target, query []byte, comp bool) (dp.Hits, error)
 	r.m.Clear()
 	p := pals.New(t, q, k.Self, r.m, 0, nil, nil)
 	if err := p.Optimise(k.MinLen, k.MinId); err != nil {
-		return nil, fmt.Errorf("Optimise: %v", err)
+		return nil, nil, fmt.Errorf("Optimise: %v", err)
 	}
 	if err := p.BuildIndex(); err != nil {
-		return nil, fmt.Errorf("BuildIndex: %v", err)
+		return nil, nil, fmt.Errorf("BuildIndex: %v", err)
 	}
-	return p.Align(comp)
+	if k.Order == 1 {
+		if other, err = p.Align(!comp); err != nil {
+			return nil, nil, err
+		}
+		other = append(dp.Hits{}, other...)
+	}
+	hits, err = p.Align(comp)
+	return hits, other, err
+}
+
+// sound applies the per-hit oracle to one hit of a search of the given strand.
+func sound(c *enum.Ctx, k kase, h dp.Hit, target, work []byte, strand string) {
+	if h.Abpos < 0 || h.Aepos > len(target) || h.Bbpos < 0 || h.Bepos > len(work) || h.Abpos > h.Aepos || h.Bbpos > h.Bepos {
+		c.Fail("soundness/outside", k, "%s hit %+v lies outside sequences of length %d and %d", strand, h, len(target), len(work))
+		return
+	}
+	if h.Aepos-h.Abpos < k.MinLen || h.Bepos-h.Bbpos < k.MinLen {
+		c.Fail("soundness/too-short", k, "%s hit %+v is shorter than the minimum hit length %d", strand, h, k.MinLen)
+	}
+	if h.Error > 1-k.MinId+1e-12 {
+		c.Fail("soundness/error-above-threshold", k, "%s hit %+v reports error %.4f > 1-minId = %.4f", strand, h, h.Error, 1-k.MinId)
+	}
+	if opt := nwScore(target[h.Abpos:h.Aepos], work[h.Bbpos:h.Bepos]); h.Score > opt {
+		c.Fail("soundness/score-above-optimum", k, "%s hit %+v reports score %d, the optimal global alignment of its regions under (+1,-3,-3) scores %d", strand, h, h.Score, opt)
+	}
 }
 
 func check(c *enum.Ctx, r *runner, k kase) {
 	target, query, pt, pq, edits := build(k)
-	var hits dp.Hits
+	var hits, other dp.Hits
 	var err error
-	if c.Guard("pals/panic", k, func() { hits, err = r.align(k, target, query, k.Rev) }) {
+	if c.Guard("pals/panic", k, func() { hits, other, err = r.align(k, target, query, k.Rev) }) {
 		return
 	}
 	if err != nil {
 		c.Fail("pals/error", k, "%v", err)
 		return
 	}
-	work := query
+	work, otherWork := query, revcomp(query)
 	if k.Rev {
-		work = revcomp(query)
+		work, otherWork = otherWork, work
 		pq = [2]int{len(query) - pq[1], len(query) - pq[0]}
+	}
+	for _, h := range other {
+		sound(c, k, h, target, otherWork, "other-strand")
+		if k.Self && k.Rev && h.Abpos == h.Bbpos && h.Aepos == h.Bepos {
+			c.Fail("self/trivial-match-reported", k, "self comparison reports the trivial match %+v", h)
+		}
 	}
 	found, found2 := false, k.Q1 == 0
 	p2 := [2]int{k.Q1, k.Q1 + k.L}
@@ -204,18 +306,9 @@ func check(c *enum.Ctx, r *runner, k kase) {
 		if k.Q1 > 0 && 2*overlap(h.Abpos, h.Aepos, pt[0], pt[1]) >= pt[1]-pt[0] && 2*overlap(h.Bbpos, h.Bepos, p2[0], p2[1]) >= p2[1]-p2[0] {
 			found2 = true
 		}
+		sound(c, k, h, target, work, "plant-strand")
 		if h.Abpos < 0 || h.Aepos > len(target) || h.Bbpos < 0 || h.Bepos > len(work) || h.Abpos > h.Aepos || h.Bbpos > h.Bepos {
-			c.Fail("soundness/outside", k, "hit %+v lies outside sequences of length %d and %d", h, len(target), len(work))
 			continue
-		}
-		if h.Aepos-h.Abpos < k.MinLen || h.Bepos-h.Bbpos < k.MinLen {
-			c.Fail("soundness/too-short", k, "hit %+v is shorter than the minimum hit length %d", h, k.MinLen)
-		}
-		if h.Error > 1-k.MinId+1e-12 {
-			c.Fail("soundness/error-above-threshold", k, "hit %+v reports error %.4f > 1-minId = %.4f", h, h.Error, 1-k.MinId)
-		}
-		if opt := nwScore(target[h.Abpos:h.Aepos], work[h.Bbpos:h.Bepos]); h.Score > opt {
-			c.Fail("soundness/score-above-optimum", k, "hit %+v reports score %d, the optimal global alignment of its regions under (+1,-3,-3) scores %d", h, h.Score, opt)
 		}
 		if k.Self && !k.Rev && h.Abpos == h.Bbpos && h.Aepos == h.Bepos {
 			c.Fail("self/trivial-match-reported", k, "self comparison reports the trivial match %+v", h)
@@ -234,10 +327,14 @@ func check(c *enum.Ctx, r *runner, k kase) {
 	}
 	// recall, only comfortably above the thresholds
 	identity := 1 - float64(edits)/float64(k.L)
+	coreLen := pt[1] - pt[0]
+	if pq[1]-pq[0] < coreLen {
+		coreLen = pq[1] - pq[0]
+	}
 	if 2*k.L >= 3*k.MinLen && !found2 {
 		c.Fail("recall/second-copy", k, "the second (exact) copy of the repeat at query %v is not recovered although the first at %v is handled; hits %+v", p2, pq, hits)
 	}
-	if identity >= k.MinId+0.05 && 2*k.L >= 3*k.MinLen && !found {
+	if identity >= k.MinId+0.05 && coreLen >= k.MinLen+1 && !found {
 		mode := "pair"
 		if k.Self {
 			mode = "self"
@@ -245,14 +342,21 @@ func check(c *enum.Ctx, r *runner, k kase) {
 		if k.Rev {
 			mode += "-rev"
 		}
-		c.Fail("recall/"+mode+"/"+strings.Fields(k.Variant)[0], k, "repeat of length %d (identity %.3f, min length %d, min identity %.2f) planted at target %v / query %v (strand coordinates) is not recovered; hits %+v", k.L, identity, k.MinLen, k.MinId, pt, pq, hits)
+		class := "recall/" + mode + "/" + strings.Fields(k.Variant)[0]
+		if 2*coreLen < 3*k.MinLen {
+			// close to the minimum length every case is its own class, so that the recorded finding
+			// (known_findings.json: the trapezoid bisection of the dp kernel) covers listed inputs only
+			class = "recall/near-minimum-length/" + mode + "/" + strings.Fields(k.Variant)[0] + "/" + enum.InputDigest(k)
+			c.Add(fmt.Sprintf("near_minimum_length_misses/min%d-%.2f/bg%d/L+%d", k.MinLen, k.MinId, k.BgT, k.L-k.MinLen), 1)
+		}
+		c.Fail(class, k, "repeat of length %d (identity %.3f, min length %d, min identity %.2f) planted at target %v / query %v (strand coordinates) is not recovered; hits %+v", k.L, identity, k.MinLen, k.MinId, pt, pq, hits)
 	}
 }
 
 func run(c *enum.Ctx) {
 	pals.MaxKmerLen = 8
-	c.Rule("fixed backgrounds generated from constants (xorshift with constant seeds; 2 pair backgrounds of 1500/1300 letters, thorough 4 incl. one low-complexity; self: one sequence of 1700); (minHitLen,minId) in {(30,0.9),(50,0.9),(50,0.94),(80,0.85)} as accepted by Optimise with MaxKmerLen lowered to 8; a repeat of length L in {minHitLen+10, 1.5 minHitLen, 3 minHitLen} planted at target positions {0, three interior, end} x 40 consecutive query positions (one full tube period) plus both query ends; variants: exact, a substitution at every third position, 2 and 3 substitutions, a deletion and an insertion of length 1-2 at every tenth position, reverse-complemented copies (complement-strand search), self comparison; soundness oracle on EVERY hit of every run; recall oracle only for identity >= minId+0.05 and L >= 1.5 minHitLen; non-trivial = every run (each contains a planted repeat)")
-	c.Assume("pals.MaxKmerLen is lowered to 8 by the harness (small index)", "recall is a heuristic claim: only plants comfortably above the thresholds are required to be found")
+	c.Rule("fixed backgrounds generated from constants (xorshift with constant seeds; 2 pair backgrounds of 1500/1300 letters, thorough 4 incl. one low-complexity; self: one sequence of 1700); (minHitLen,minId) in {(30,0.9),(50,0.9),(50,0.94),(80,0.85)} as accepted by Optimise with MaxKmerLen lowered to 8; a repeat of length L in {minHitLen+1, +2, +5, +10, 1.5 minHitLen, 3 minHitLen} planted at target positions {0, three interior, end} x 40 consecutive query positions (one full tube period) plus both query ends; variants: exact, a substitution at every third position, 2 and 3 substitutions, a deletion and an insertion of length 1-2 at every tenth position, reverse-complemented copies (complement-strand search), self comparison (also under the permissive settings (80,0.8),(100,0.8),(150,0.85) on sequences of 2000/3500 (5000) letters, where the filter is noisy next to the main diagonal, and at 64 consecutive sequence lengths = every position of the tube grid relative to the main diagonal); every reverse-complement case and every exact/sub2/sub3 case again as the second Align call on an aligner value that has already searched the other strand (both result sets judged); soundness oracle on EVERY hit of every run; recall oracle for identity >= minId+0.05 and a core (the repeat without edits so close to an end that leaving them out scores at least as well: substitutions with < 5, indels of b with < 3b+2 letters beyond them) longer than minHitLen in both sequences; a hit must overlap half of the core in both; non-trivial = every run (each contains a planted repeat)")
+	c.Assume("pals.MaxKmerLen is lowered to 8 by the harness (small index)", "identity comfortably above the threshold = at least 0.05 above")
 	work := os.Getenv("VERIF_WORK")
 	if work == "" {
 		work = os.TempDir()
@@ -270,7 +374,7 @@ func run(c *enum.Ctx) {
 	const lenT, lenQ = 1500, 1300
 	for _, bg := range bgs {
 		for _, p := range pss {
-			for _, L := range []int{p.minLen + 10, p.minLen * 3 / 2, p.minLen * 3} {
+			for _, L := range []int{p.minLen + 1, p.minLen + 2, p.minLen + 5, p.minLen + 10, p.minLen * 3 / 2, p.minLen * 3} {
 				var variants []string
 				variants = append(variants, "exact", "sub2", "sub3")
 				for x := 0; x < L; x += 3 {
@@ -305,7 +409,7 @@ func run(c *enum.Ctx) {
 					}
 				}
 				// one target copy, two query copies (duplicate suppression must keep both)
-				if L != p.minLen+10 {
+				if L >= p.minLen*3/2 {
 					for _, t0 := range []int{411, lenT - L} {
 						for _, q0 := range []int{100, 333} {
 							for _, q1 := range []int{q0 + L + 37, 900} {
@@ -340,6 +444,50 @@ func run(c *enum.Ctx) {
 					}
 				}
 			}
+		}
+	}
+	// self comparison under permissive settings (noisy filter: chance hits in the tubes next to the
+	// main diagonal), where the trivial self match must still not be reported
+	selfLens := []int{2000, 3500}
+	selfBgs := []int{1, 3}
+	if !c.Quick {
+		selfLens = append(selfLens, 5000)
+		selfBgs = append(selfBgs, 5, 7)
+	}
+	for _, p := range []ps{{80, 0.8}, {100, 0.8}, {150, 0.85}} {
+		for _, bg := range selfBgs {
+			for _, n := range selfLens {
+				L := p.minLen + 50
+				for _, t0 := range []int{100, 500} {
+					for _, q0 := range []int{n/2 + 200, n - L - 7} {
+						for _, v := range []string{"exact", "sub3"} {
+							for _, rev := range []bool{false, true} {
+								cases = append(cases, kase{BgT: bg, LenT: n, MinLen: p.minLen, MinId: p.minId, L: L, T0: t0, Q0: q0, Variant: v, Self: true, Rev: rev})
+							}
+						}
+					}
+				}
+			}
+		}
+	}
+	// ... at every residue of the sequence length modulo the tube offset (the tube grid is anchored at the
+	// end of the target, so the length decides which tube touches the main diagonal)
+	for _, p := range []ps{{80, 0.8}, {100, 0.8}, {150, 0.85}, {50, 0.9}} {
+		for _, bg := range selfBgs {
+			for n := 2000; n < 2064; n++ {
+				if c.Quick && bg != selfBgs[0] && n%4 != 0 {
+					continue
+				}
+				L := p.minLen + 50
+				cases = append(cases, kase{BgT: bg, LenT: n, MinLen: p.minLen, MinId: p.minId, L: L, T0: 300, Q0: 1200, Variant: "exact", Self: true})
+			}
+		}
+	}
+	// the same searches as the second call on an aligner value that has already searched the other strand
+	for _, k := range cases[:len(cases):len(cases)] {
+		if k.Rev || k.Variant == "exact" || k.Variant == "sub2" || k.Variant == "sub3" {
+			k.Order = 1
+			cases = append(cases, k)
 		}
 	}
 	c.Set("cases", len(cases))
